@@ -789,7 +789,7 @@ const SHARED: u8 = 1;
 const EXCL: u8 = 2;
 const MISSING: u8 = 3;
 const UNKNOWN: u8 = 4;
-const NCAND: usize = 6;
+const NCAND: usize = 8;
 const CAND: [&str; NCAND] = [
     "EntitiesRes",
     "MaskedStorage<A>",
@@ -797,6 +797,8 @@ const CAND: [&str; NCAND] = [
     "MaskedStorage<C>",
     "MaskedStorage<D>",
     "LazyUpdate",
+    "MaskedStorage<T0>",
+    "MaskedStorage<Z1>",
 ];
 
 fn cand_ids() -> [ResourceId; NCAND] {
@@ -807,6 +809,8 @@ fn cand_ids() -> [ResourceId; NCAND] {
         ResourceId::new::<MaskedStorage<C>>(),
         ResourceId::new::<MaskedStorage<D>>(),
         ResourceId::new::<LazyUpdate>(),
+        ResourceId::new::<MaskedStorage<T0>>(),
+        ResourceId::new::<MaskedStorage<Z1>>(),
     ]
 }
 
@@ -879,6 +883,8 @@ fn classify_all(w: &World, probes: &mut u64) -> [u8; NCAND] {
         classify::<MaskedStorage<C>>(w, probes),
         classify::<MaskedStorage<D>>(w, probes),
         classify::<LazyUpdate>(w, probes),
+        classify::<MaskedStorage<T0>>(w, probes),
+        classify::<MaskedStorage<Z1>>(w, probes),
     ]
 }
 
@@ -929,6 +935,8 @@ fn probe_data<'a, T: SystemData<'a>>(w: &'a World, name: &'static str) -> Decl {
     hold_and_fetch!(MaskedStorage<C>, "MaskedStorage<C>");
     hold_and_fetch!(MaskedStorage<D>, "MaskedStorage<D>");
     hold_and_fetch!(LazyUpdate, "LazyUpdate");
+    hold_and_fetch!(MaskedStorage<T0>, "MaskedStorage<T0>");
+    hold_and_fetch!(MaskedStorage<Z1>, "MaskedStorage<Z1>");
     hold_and_fetch!(specs::shred::MetaTable<dyn specs::storage::AnyStorage>, "the storage registry MetaTable<dyn AnyStorage>");
     Decl { name: tidy(name), before, held, after, reads, writes, probes, transient }
 }
@@ -955,6 +963,12 @@ fn single_probes() -> Vec<fn(&World) -> Decl> {
         probe_fn!(Entities<'a>),
         probe_fn!(Read<'a, LazyUpdate>),
         probe_fn!((ReadStorage<'a, A>, ReadStorage<'a, A>)),
+        // zero-sized components: a tag in a NullStorage and a unit struct in a VecStorage
+        probe_fn!(ReadStorage<'a, T0>),
+        probe_fn!(WriteStorage<'a, T0>),
+        probe_fn!(ReadStorage<'a, Z1>),
+        probe_fn!(WriteStorage<'a, Z1>),
+        probe_fn!((ReadStorage<'a, T0>, WriteStorage<'a, Z1>, Entities<'a>)),
         probe_fn!((WriteStorage<'a, C>, Entities<'a>, ReadStorage<'a, B>)),
     ]
 }
@@ -1463,6 +1477,285 @@ fn storm_case(rep: &mut Report, case: u64, pools: &mut BTreeMap<usize, Arc<Threa
     }
 }
 
+
+// ---------------------------------------------------------------------------
+// zero-sized components: readers and writers of tag storages, co-staged
+// ---------------------------------------------------------------------------
+
+/// A tag in a `NullStorage`.
+#[derive(Clone, Copy, Debug, Default, PartialEq, Eq)]
+pub struct T0;
+impl Component for T0 {
+    type Storage = NullStorage<Self>;
+}
+/// A unit struct kept in an ordinary `VecStorage`.
+#[derive(Clone, Copy, Debug, Default, PartialEq, Eq)]
+pub struct Z1;
+impl Component for Z1 {
+    type Storage = VecStorage<Self>;
+}
+
+trait TagKind: Component + Default + Send + Sync {
+    const I: usize;
+}
+impl TagKind for T0 {
+    const I: usize = 0;
+}
+impl TagKind for Z1 {
+    const I: usize = 1;
+}
+const TAGNAME: [&str; 2] = ["T0 (NullStorage)", "Z1 (unit struct in a VecStorage)"];
+
+struct TagShared {
+    readers: [AtomicU64; 2],
+    writers: [AtomicU64; 2],
+    inside: AtomicU64,
+    max_inside: AtomicU64,
+    entries: AtomicU64,
+    spin: u64,
+    ents: Vec<Entity>,
+    runs: Vec<AtomicU64>,
+    faults: Mutex<Vec<(&'static str, String)>>,
+}
+
+impl TagShared {
+    fn fault(&self, sig: &'static str, msg: String) {
+        let mut f = self.faults.lock().unwrap_or_else(|e| e.into_inner());
+        if f.len() < MAX_FAULTS {
+            f.push((sig, msg));
+        }
+    }
+    /// bounded wait (iterations, not time) for another system to enter while this one holds its data
+    fn rendezvous(&self) {
+        let inside = self.inside.fetch_add(1, SeqCst) + 1;
+        self.max_inside.fetch_max(inside, SeqCst);
+        let mine = self.entries.fetch_add(1, SeqCst) + 1;
+        for _ in 0..self.spin {
+            if self.entries.load(SeqCst) > mine {
+                break;
+            }
+            std::thread::yield_now();
+        }
+        self.max_inside.fetch_max(self.inside.load(SeqCst), SeqCst);
+        self.inside.fetch_sub(1, SeqCst);
+    }
+}
+
+struct TagR<T> {
+    sh: Arc<TagShared>,
+    id: usize,
+    _p: PhantomData<fn() -> T>,
+}
+struct TagW<T> {
+    sh: Arc<TagShared>,
+    id: usize,
+    _p: PhantomData<fn() -> T>,
+}
+
+impl<'a, T: TagKind> System<'a> for TagR<T> {
+    type SystemData = ReadStorage<'a, T>;
+    fn run(&mut self, s: Self::SystemData) {
+        let sh = &*self.sh;
+        sh.runs[self.id].fetch_add(1, SeqCst);
+        sh.readers[T::I].fetch_add(1, SeqCst);
+        let w = sh.writers[T::I].load(SeqCst);
+        if w != 0 {
+            sh.fault("C11:reader-overlaps-writer", format!("system t{} entered holding ReadStorage<{}> while {} writer(s) of that storage were running", self.id, TAGNAME[T::I], w));
+        }
+        let before: Vec<bool> = sh.ents.iter().map(|e| s.contains(*e)).collect();
+        let n1 = s.count();
+        sh.rendezvous();
+        let after: Vec<bool> = sh.ents.iter().map(|e| s.contains(*e)).collect();
+        if before != after || n1 != s.count() {
+            sh.fault("C11:reader-saw-change", format!("system t{} looked at storage {} twice while holding ReadStorage and saw different memberships", self.id, TAGNAME[T::I]));
+        }
+        let w = sh.writers[T::I].load(SeqCst);
+        sh.readers[T::I].fetch_sub(1, SeqCst);
+        if w != 0 {
+            sh.fault("C11:reader-overlaps-writer", format!("system t{} still held ReadStorage<{}> when {} writer(s) of that storage were running", self.id, TAGNAME[T::I], w));
+        }
+    }
+}
+
+impl<'a, T: TagKind> System<'a> for TagW<T> {
+    type SystemData = WriteStorage<'a, T>;
+    fn run(&mut self, mut s: Self::SystemData) {
+        let sh = &*self.sh;
+        sh.runs[self.id].fetch_add(1, SeqCst);
+        let w = sh.writers[T::I].fetch_add(1, SeqCst);
+        let r = sh.readers[T::I].load(SeqCst);
+        if w != 0 || r != 0 {
+            sh.fault("C11:writer-overlaps", format!("system t{} entered holding WriteStorage<{}> while {} other writer(s) and {} reader(s) of that storage were running", self.id, TAGNAME[T::I], w, r));
+        }
+        // flip the membership of every entity once
+        let mut mine = Vec::with_capacity(sh.ents.len());
+        for e in &sh.ents {
+            if s.contains(*e) {
+                s.remove(*e);
+                mine.push(false);
+            } else {
+                let _ = s.insert(*e, T::default());
+                mine.push(true);
+            }
+        }
+        sh.rendezvous();
+        let now: Vec<bool> = sh.ents.iter().map(|e| s.contains(*e)).collect();
+        if now != mine {
+            sh.fault("C11:writer-saw-change", format!("system t{} holding WriteStorage<{}> found memberships it had not written", self.id, TAGNAME[T::I]));
+        }
+        let r = sh.readers[T::I].load(SeqCst);
+        let w = sh.writers[T::I].fetch_sub(1, SeqCst);
+        if w != 1 || r != 0 {
+            sh.fault("C11:writer-overlaps", format!("system t{} still held WriteStorage<{}> when {} other writer(s) and {} reader(s) of that storage were running", self.id, TAGNAME[T::I], w - 1, r));
+        }
+    }
+}
+
+/// Readers and writers of zero-sized components without any declared order between them: the writers
+/// must be kept apart from everything else that touches the same storage, the dispatch must not fail
+/// with a borrow conflict, every system runs once, and every flip of a writer is kept.
+fn tag_case(rep: &mut Report, case: u64, pools: &mut BTreeMap<usize, Arc<ThreadPool>>) {
+    let mut rng = derive(rep.cfg.seed, &[hash_str("dispatch-tags"), case]);
+    trace::set_ctx("C11");
+    trace::set_domain(&["C11"]);
+    let nsys = rng.range(2, 8);
+    let threads = *rng.pick(&[2usize, 3, 4, 8, 16]);
+    let frames = rng.range(4, 16);
+    let pool = match get_pool(pools, threads) {
+        Ok(p) => p,
+        Err(e) => {
+            rep.inconclusive.push(e);
+            return;
+        }
+    };
+    let mut world = World::new();
+    let early = rng.chance(1, 2);
+    if early {
+        world.register::<T0>();
+        world.register::<Z1>();
+    }
+    let ents: Vec<Entity> = (0..rng.range(1, 130)).map(|_| world.create_entity().build()).collect();
+    let sh = Arc::new(TagShared {
+        readers: [AtomicU64::new(0), AtomicU64::new(0)],
+        writers: [AtomicU64::new(0), AtomicU64::new(0)],
+        inside: AtomicU64::new(0),
+        max_inside: AtomicU64::new(0),
+        entries: AtomicU64::new(0),
+        spin: rep.cfg.extra_u64("spin", 400) * 4,
+        ents: ents.clone(),
+        runs: atomics(nsys),
+        faults: Mutex::new(Vec::new()),
+    });
+    let mut b = DispatcherBuilder::new().with_pool(pool);
+    let mut hist = vec![format!("tag graph: {} systems on a pool of {}, {} dispatches, {} entities (storages registered before the dispatcher's setup: {})", nsys, threads, frames, ents.len(), early)];
+    let mut nw = [0u64; 2];
+    let mut kinds: Vec<(usize, bool)> = Vec::new();
+    // at least one writer and one other accessor of the same tag
+    let focus = rng.below(2);
+    for id in 0..nsys {
+        let (t, w) = match id {
+            0 => (focus, true),
+            1 => (focus, rng.chance(1, 3)),
+            _ => (rng.below(2), rng.chance(1, 3)),
+        };
+        kinds.push((t, w));
+    }
+    rng.shuffle(&mut kinds);
+    for (id, (t, w)) in kinds.iter().enumerate() {
+        let name = format!("t{}", id);
+        // a declared order between some pairs, none between most
+        let deps: Vec<String> = if id > 0 && rng.chance(1, 6) { vec![format!("t{}", rng.below(id))] } else { vec![] };
+        let dep_refs: Vec<&str> = deps.iter().map(|d| d.as_str()).collect();
+        match (*t, *w) {
+            (0, false) => b.add(TagR::<T0> { sh: sh.clone(), id, _p: PhantomData }, &name, &dep_refs),
+            (0, true) => b.add(TagW::<T0> { sh: sh.clone(), id, _p: PhantomData }, &name, &dep_refs),
+            (_, false) => b.add(TagR::<Z1> { sh: sh.clone(), id, _p: PhantomData }, &name, &dep_refs),
+            (_, true) => b.add(TagW::<Z1> { sh: sh.clone(), id, _p: PhantomData }, &name, &dep_refs),
+        }
+        if *w {
+            nw[*t] += 1;
+        }
+        hist.push(format!("t{}: {}Storage<{}> after {:?}", id, if *w { "Write" } else { "Read" }, TAGNAME[*t], deps));
+    }
+    for l in &hist {
+        trace::push(l);
+    }
+    let mut d = b.build();
+    d.setup(&mut world);
+    // a tag no system of this graph holds is registered by hand (registering twice is a no-op)
+    world.register::<T0>();
+    world.register::<Z1>();
+    let mut member: [Vec<bool>; 2] = [vec![false; ents.len()], vec![false; ents.len()]];
+    {
+        let (mut s0, mut s1) = (world.write_storage::<T0>(), world.write_storage::<Z1>());
+        for (k, e) in ents.iter().enumerate() {
+            if rng.chance(1, 2) {
+                let _ = s0.insert(*e, T0);
+                member[0][k] = true;
+            }
+            if rng.chance(1, 2) {
+                let _ = s1.insert(*e, Z1);
+                member[1][k] = true;
+            }
+        }
+    }
+    rep.cases_run += 1;
+    rep.bump("tag_cases", 1);
+    for f in 0..frames {
+        let line = format!("dispatch {}", f);
+        trace::push(&line);
+        hist.push(line);
+        rep.op("tag_dispatch");
+        let before: Vec<u64> = sh.runs.iter().map(|r| r.load(SeqCst)).collect();
+        let r = with_quiet_panics(|| catch_unwind(AssertUnwindSafe(|| d.dispatch(&world))));
+        rep.bump("dispatches", 1);
+        if let Err(e) = r {
+            let msg = format!(
+                "dispatch {} of readers and writers of zero-sized components panicked (a borrow conflict means two accessors of one storage were scheduled together): {}",
+                f,
+                panic_text(&e)
+            );
+            rep.violation("C11", case, hist.len(), msg, "C11:dispatch-panic".into(), &hist);
+            return;
+        }
+        let faults = std::mem::take(&mut *sh.faults.lock().unwrap_or_else(|e| e.into_inner()));
+        if let Some((sig, msg)) = faults.into_iter().next() {
+            rep.violation("C11", case, hist.len(), format!("dispatch {}: {}", f, msg), sig.into(), &hist);
+            return;
+        }
+        for (i, r) in sh.runs.iter().enumerate() {
+            let runs = r.load(SeqCst);
+            if runs != before[i] + 1 {
+                let msg = format!("dispatch {}: system t{} ran {} times instead of exactly once", f, i, runs - before[i]);
+                rep.violation("C11", case, hist.len(), msg, "C11:not-exactly-once".into(), &hist);
+                return;
+            }
+        }
+        for t in 0..2 {
+            if nw[t] % 2 == 1 {
+                for m in member[t].iter_mut() {
+                    *m = !*m;
+                }
+            }
+        }
+        let (s0, s1) = (world.read_storage::<T0>(), world.read_storage::<Z1>());
+        let got: [Vec<bool>; 2] = [ents.iter().map(|e| s0.contains(*e)).collect(), ents.iter().map(|e| s1.contains(*e)).collect()];
+        for t in 0..2 {
+            if got[t] != member[t] {
+                let msg = format!("dispatch {}: after {} writer(s) each flipped every membership of {} once, the storage does not hold the expected memberships (a flip was lost or doubled)", f, nw[t], TAGNAME[t]);
+                rep.violation("C11", case, hist.len(), msg, "C11:tag-write-lost".into(), &hist);
+                return;
+            }
+        }
+    }
+    let mi = sh.max_inside.load(SeqCst);
+    rep.max("max_tag_systems_inside_together", mi);
+    if mi >= 2 {
+        rep.bump("tag_cases_with_overlap", 1);
+    }
+    rep.distinct(derive(0, &[hash_str("tags"), nsys as u64, threads as u64, mi, nw[0], nw[1]]).next());
+}
+
 // ---------------------------------------------------------------------------
 // driver
 // ---------------------------------------------------------------------------
@@ -1666,6 +1959,10 @@ pub fn run(rep: &mut Report) {
             crate::report::guarded(rep, case, |rep| storm_case(rep, case, &mut pools));
             continue;
         }
+        if env.par && !cfg!(miri) && case % 20 == 9 {
+            crate::report::guarded(rep, case, |rep| tag_case(rep, case, &mut pools));
+            continue;
+        }
         crate::report::guarded(rep, case, |rep| run_case(rep, case, &env, &mut pools));
     }
 }
@@ -1760,6 +2057,8 @@ fn run_case(rep: &mut Report, case: u64, env: &Env, pools: &mut BTreeMap<usize, 
     world.register::<A>();
     world.register::<B>();
     world.register::<C>();
+    world.register::<T0>();
+    world.register::<Z1>();
     if rng.chance(1, 4) {
         // a second setup of storage handles on the complete world is a no-op
         world.setup::<(ReadStorage<D>, WriteStorage<D>, ReadStorage<A>)>();
